@@ -20,5 +20,6 @@ def run(ctx: Ctx) -> None:
     ctx.rule('R-LAYOUT-Y5', 'the parser sees strip()+newline text on every path')
     ctx.rule('R-PREPARSE', 'tag/block spacing is forced before parsing')
     ctx.run(layout.check_parser_input)
+    ctx.run(layout.check_frontmatter_order)
     ctx.run(layout.check_frontmatter_flow)
     ctx.run(layout.check_split_frontmatter)
